@@ -2,7 +2,8 @@
 # usage: mutcheck.sh <patch.diff> <ID> [more check args]   -- applies the patch to /repo, runs the check, reverts
 p=$1; shift
 cd /repo && git apply "$p" || { echo "patch does not apply"; exit 3; }
-cd /verif && ./check "$@"; rc=$?
+# evidence of a run on a mutated tree must never replace the committed record of the unchanged tree
+cd /verif && VERIF_EVIDENCE_DIR=/verif/.scratch/mut-evidence ./check "$@"; rc=$?
 cd /repo && git checkout -- . && git status --short | head -3
 echo "mutcheck rc=$rc"
 exit $rc
